@@ -47,8 +47,9 @@ def scenario(rnd, with_cache):
         jobs = []
         for sp in sps:
             j = p.open_job(sp).init()
-            j.doc["k"] = sp["a"]
-            open(j.fn("data.txt"), "w").write(str(sp))
+            if rnd.random() < 0.7:          # some jobs hold nothing but their state point file
+                j.doc["k"] = sp["a"]
+                open(j.fn("data.txt"), "w").write(str(sp))
             jobs.append(j)
         if with_cache:
             p.update_cache()
